@@ -13,6 +13,7 @@ import LyonVerif.Model.Path.Store
 import LyonVerif.Model.Path.Buffer
 import LyonVerif.Model.Path.Commands
 import LyonVerif.Model.Path.Polygon
+import LyonVerif.Model.Path.Adapters
 
 namespace Lyon.Drive.C14
 open Lyon Lyon.Drive Lyon.Path
@@ -104,13 +105,25 @@ def buildKind (kind : String) (n : Nat) (prog : List (Call (Pt Int) (List Int)))
   else
     ((BuilderWithAttributes.new (S := Int) n).run prog).map fun r => (r.1.build, r.2)
 
+/-- `path.as_slice()` views and the views of `path.transformed(&Translation(dx, dy))`
+(`Adapt.applyTransform`, the C16 model of `apply_transform`) -/
+def sliceAndTransformedViews (p : PathData Int) (dx dy : Int) : List String :=
+  let q := Adapt.applyTransform (fun pt => (pt.1 + dx, pt.2 + dy)) p
+  [ "slice", sOpt (sEvents sAPt) (p.asSlice.bind PathData.iterWithAttributes),
+    "xf", sOpt (sEvents sPt) q.iter,
+    "xfa", sOpt (sEvents sAPt) q.iterWithAttributes,
+    "xflast", sEndpoint q.lastEndpoint ]
+
 def path (v : Tok) : String :=
   let kind := v.getD 0 ""
   let n := rdNat v 1
-  let (prog, _) := rdProg v n 2 []
+  let dx := rdInt v 2
+  let dy := rdInt v 3
+  let (prog, _) := rdProg v n 4 []
   match buildKind kind n prog with
   | none => "panic"
-  | some (p, ids) => join (["ids", unwords (ids.map sNat)] ++ views p ++ reversedViews p)
+  | some (p, ids) =>
+    join (["ids", unwords (ids.map sNat)] ++ views p ++ reversedViews p ++ sliceAndTransformedViews p dx dy)
 
 partial def rdProgs (v : Tok) (n : Nat) (k : Nat) (i : Nat) (acc : List (List (Call (Pt Int) (List Int)))) :
     List (List (Call (Pt Int) (List Int))) × Nat :=
